@@ -19,6 +19,7 @@ def _rules():
         ("READD: watcher copy loops run to the number of watchers", watchrules.readd),
         ("semantic minimiser: folding steps are exact", minimiser.steps_exact),
         ("semantic minimiser: emission is exact", minimiser.emission_exact),
+        ("semantic minimiser: scratch vectors are reset per call", minimiser.scratch_reset),
         ("label TABLE of the recursive minimiser", C02.u12),
         ("retention TABLE of the recursive minimiser", C02.u24),
         ("routing TABLE of conflict analysis", C02.u16),
